@@ -1,6 +1,7 @@
 """./check configuration for C11 (see verif_props.py)."""
 
-PROP = {'module': 'GolibsVerif.Theorems.C11',
+PROP = {'technique': 'Lean refinement of ring buffer and sets to abstract specs by induction over op scripts, storage-level heap model for clone independence; differential tie',
+ 'module': 'GolibsVerif.Theorems.C11',
  'namespace': 'GolibsVerif.C11',
  'rule': 'op scripts against RingBuffer[int] (capacities 0,1,2,3,5, nil and zero-value receivers; '
          'Push/Clear/Current/Len/Range/ReverseRange with callbacks stopping at every position), SortedSliceSet[int], '
